@@ -77,8 +77,12 @@ def dhtv_for(pa, F, d):
     if F == 257:
         name = f'default-512-{metric}'
         if name not in _ALIGNERS:
-            _ALIGNERS[name] = pa.DHTVPermutationAlignment.from_stft_size(
-                512, similarity_metric=metric)
+            try:
+                _ALIGNERS[name] = pa.DHTVPermutationAlignment.from_stft_size(
+                    512, similarity_metric=metric)
+            except Exception as e:  # noqa
+                raise Violation('shipped-default-configuration-raises',
+                                f'from_stft_size(512): {type(e).__name__}: {e}')
         return _ALIGNERS[name], name
     width = {33: 12, 65: 24}[F]
     shift = width // 6    # keeps >= 2/3 overlap also for the stretched ends
